@@ -296,6 +296,15 @@ Proof.
   apply G, closed_make.
 Qed.
 
+Theorem hierarchy_closed_explicit : forall ops,
+  let h := fold_left hstep ops make_hierarchy in
+  (forall x y, In (x, y) (ha h) <-> clos_trans tag (fun a b => In (a, b) (hp h)) x y) /\
+  (forall x y, In (x, y) (hd h) <-> In (y, x) (ha h)) /\
+  (forall x, ~ In (x, x) (ha h)).
+Proof.
+  intros ops h. destruct (hierarchy_closed ops) as [A B C' _]. fold h in A, B, C'. auto.
+Qed.
+
 (** relations as sets *)
 Lemma rel_incl_spec r1 r2 : rel_incl r1 r2 = true <-> forall x y, In (x, y) r1 -> In (x, y) r2.
 Proof.
